@@ -58,6 +58,9 @@ var c11Scens = []scen{
 	{"first use: hotp||hotp same call", nil, [][]string{{"hotp-c1"}, {"hotp-c1"}}, [2]int{2, 3}, false},
 	{"first use: ocra||ocra same call", nil, [][]string{{"ocra-short"}, {"ocra-short"}}, [2]int{2, 3}, false},
 	{"first use: url||decode||random", nil, [][]string{{"url-totp"}, {"decode-secret-1"}, {"random-secret-0"}}, [2]int{1, 2}, false},
+	{"random||random", nil, [][]string{{"random-stream-0"}, {"random-stream-0"}}, [2]int{2, 3}, false},
+	{"random||random 64", []string{"random-stream-0"}, [][]string{{"random-stream-2"}, {"random-stream-0"}}, [2]int{2, 3}, false},
+	{"random 1||2||decode", nil, [][]string{{"random-stream-0"}, {"random-stream-2", "random-stream-0"}, {"decode-secret-1"}}, [2]int{1, 2}, false},
 	{"3xhotp retained", []string{"hotp-c1"}, [][]string{{"hotp-c1", "hotp-1digit"}, {"hotp-c2^40-sha256-8"}, {"hotp-10digits"}}, [2]int{1, 2}, false},
 	{"hotp||hotp||gc unbounded-at-pool-ops", []string{"hotp-c1"}, [][]string{{"hotp-c1", "totp-gen"}, {"hotp-c2^40-sha256-8", "hotp-1digit"}, {"gc"}}, [2]int{-1, -1}, true},
 	{"ocra||ocra||adversary unbounded-at-pool-ops", []string{"ocra-short"}, [][]string{{"ocra-short", "ocra-long"}, {"ocra-validate-hit"}, {"adversary-6287"}}, [2]int{-1, -1}, true},
@@ -82,6 +85,7 @@ func newC11Env() *c11Env {
 	e := &c11Env{byName: map[string]int{}}
 	e.snap = irt.SnapshotGlobals() // first thing: nothing of the library has run yet
 	e.ops = append(buildOps(), advOps()...)
+	posStream.install()
 	for i, o := range e.ops {
 		e.byName[o.name] = i
 	}
@@ -111,6 +115,7 @@ func nonPool(g map[string]uint64) map[string]uint64 {
 func (e *c11Env) runHistory(path []int) (obs, bad string) {
 	e.snap.Restore()
 	irt.ResetPools()
+	posStream.reset()
 	var kept []retained
 	for step, i := range path {
 		o := e.ops[i]
@@ -140,6 +145,7 @@ func (e *c11Env) runSchedule(sc scen, x *xplore.X) (outcome, pattern, bad string
 	// first-use interleavings (lazily built tables, "initialised" flags) are explored like any other
 	e.snap.Restore()
 	irt.ResetPools()
+	posStream.reset()
 	for _, w := range sc.warm {
 		e.ops[e.byName[w]].run()
 	}
